@@ -11,6 +11,8 @@ import (
 	"net"
 	"sync/atomic"
 	"time"
+
+	"github.com/goburrow/serial"
 )
 
 var verifQuietLogger = log.New(io.Discard, "", 0)
@@ -48,6 +50,39 @@ func VerifNewClientOnConn(conf *ClientConfiguration, conn net.Conn) (mc *ModbusC
 	default:
 		err = ErrConfigurationError
 	}
+
+	return
+}
+
+// VerifNewClientOnSerialPort creates an rtu:// client the way Open() does, with the given
+// serial.Port standing in for serial.Open(): the real serialPortWrapper (deadline emulation) sits
+// between the RTU transport and the port.
+func VerifNewClientOnSerialPort(conf *ClientConfiguration, port serial.Port) (mc *ModbusClient, err error) {
+	var spw *serialPortWrapper
+
+	mc, err = NewClient(conf)
+	if err != nil {
+		return
+	}
+	if mc.transportType != modbusRTU {
+		err = ErrConfigurationError
+		return
+	}
+
+	mc.lock.Lock()
+	defer mc.lock.Unlock()
+
+	spw = newSerialPortWrapper(&serialPortConfig{
+		Device:   mc.conf.URL,
+		Speed:    mc.conf.Speed,
+		DataBits: mc.conf.DataBits,
+		Parity:   mc.conf.Parity,
+		StopBits: mc.conf.StopBits,
+	})
+	spw.port = port
+	discard(spw)
+	mc.transport = newRTUTransport(
+		spw, mc.conf.URL, mc.conf.Speed, mc.conf.Timeout, mc.conf.Logger)
 
 	return
 }
